@@ -110,9 +110,17 @@ def run(cx):
             # recovery runs only from a journal that exists AND was initialised (holds at least one row: a first start that stopped
             # before the initial dump committed leaves an empty journal - F24b); the zone file is loaded exactly otherwise
             JP = r'phi\(\^arg6\.journal_path\|file::rooted\(\^arg6\.journal_path,\^arg5\)\)'
-            INIT = r"phi\(false\|!phi\(false\|!ok\(<JournalIter<'_> as Iterator>::next\(Journal::iter\(try\(Result::map_err\(Journal::from_file\(" + JP + r"\),closure:.*\)\)@Continue\.0\)\)\)\)\)"
-            cx.guard('C14.G1', rec[:1], {'journal-exists': '^Path::exists\\(' + JP + '\\)$', 'journal-initialised(has-a-row-or-no-zone-file)': '^' + INIT + '$'}, fn=c)
-            cx.guard('C14.G1', zf[:1], {'journal-missing-or-empty': '^!' + INIT + '$', 'zone-file-exists': r'^Path::exists\(file::rooted\(\^arg6\.zone_path,\^arg5\)\)$'}, fn=c)
+            JE = 'Path::exists\\(' + JP + '\\)'
+            ZE = r'Path::exists\(file::rooted\(\^arg6\.zone_path,\^arg5\)\)'
+            ROW = r"ok\(<JournalIter<'_> as Iterator>::next\(Journal::iter\(try\(Result::map_err\(Journal::from_file\(" + JP + r"\),closure:.*\)\)@Continue\.0\)\)\)"
+            # journal_initialised = journal exists && (no zone file || the journal has a first row), in any equivalent spelling:
+            # the clauses are decided with cut sets over the value-sensitive reachability, not by the shape of the expression
+            for nm, cl in (('journal-exists', [JE]), ('journal-initialised(has-a-row-or-no-zone-file)', ['!' + ZE, ROW])):
+                cx.check('C14.G1', cx.crosses_any(c, rec[0], cl), c.path, rec[0].key(), 'missing-guard:' + nm,
+                         'a path reaches the recovery without crossing one of ' + ' | '.join(x[:60] for x in cl), rec[0].loc)
+            for nm, cl in (('zone-file-exists', [ZE]), ('journal-missing-or-a-zone-file', ['!' + JE, ZE]), ('journal-missing-or-empty', ['!' + JE, '!' + ROW])):
+                cx.check('C14.G1', cx.crosses_any(c, zf[0], cl), c.path, zf[0].key(), 'missing-guard:' + nm,
+                         'a path reaches the zone-file load without crossing one of ' + ' | '.join(x[:60] for x in cl), zf[0].loc)
             cx.must_pass('C14.G1', c, pj, via_blocks={s.bb for s in sj}, what='journal-attached-before-initial-dump')
             cx.must_pass('C14.G1', c, pj, via_blocks={zf[0].bb}, what='zone-loaded-before-initial-dump')
     # ---------------------------------------------------------------- P3 transaction bracket
@@ -123,8 +131,28 @@ def run(cx):
         commit = [s for s in eb if 'lit:"COMMIT' in s.term]
         rollback = [s for s in eb if 'lit:"ROLLBACK' in s.term]
         rows = cx.calls(ir, r'persistence::Journal::insert_record$')
-        cx.check('C14.P3', len(begin) == 1 and len(commit) == 1 and len(rows) >= 1, ir.path, 'calls', 'rows-of-one-update-in-one-transaction',
-                 f'BEGIN={len(begin)} COMMIT={len(commit)} row-inserts={len(rows)}: without a transaction bracket each row is its own commit and a stop after row k leaves a half-written update', f'{ir.file}:{ir.line}')
+        tfe = [s_ for s_ in cx.calls(ir, r'Iterator::try_for_each$') if re.search(r'^Iterator::try_for_each\(slice::iter\(arg3\),closure:', s_.term)]
+        if not rows and len(tfe) == 1:
+            # the row loop written as records.iter().try_for_each(|r| self.insert_record(serial, r)): first failing row stops it
+            tc = [g for g in cx.closures_of(ir) if '@try_for_each#' in g.path]
+            inner = [x for g in tc for x in cx.calls(g, r'persistence::Journal::insert_record$')]
+            cx.check('C14.P3', len(begin) == 1 and len(commit) == 1 and len(inner) == 1 and bool(re.fullmatch(r'Journal::insert_record\(\^arg1,\^arg2,arg2\)', inner[0].term)),
+                     ir.path, 'calls', 'rows-of-one-update-in-one-transaction(try_for_each)', f'BEGIN={len(begin)} COMMIT={len(commit)} row-inserts={len(inner)}')
+            T = r'Iterator::try_for_each\(slice::iter\(arg3\),closure:[^)]*\)'
+            cx.guard('C14.P3', tfe, {'inside-transaction': r'^ok\(Connection::execute_batch\(.*lit:"BEGIN"\)\)$'}, fn=ir)
+            cx.guard('C14.P3', commit, {'all-rows-written': rf'^ok\({T}\)$'}, fn=ir)
+            oks = cx.returns(ir, r'^Result::Ok\(')
+            cx.guard('C14.P3', oks, {'committed': r'^ok\(Connection::execute_batch\(.*lit:"COMMIT"\)\)$'}, expect=1, fn=ir)
+            errs = [s_ for s_ in cx.returns(ir, r'^Result::Err\(') if cx.has_guard(s_, rf'^!ok\({T}\)$')]
+            cx.must_pass('C14.P3', ir, errs, via_blocks={s_.bb for s_ in rollback}, what='failing-row-rolls-back')
+            cx.check('C14.P3', len(errs) == 1 and len(rollback) == 1, ir.path, 'ret', 'row-error-return', f'{len(errs)}/{len(rollback)}')
+            allrets = cx.returns(ir, r'.')
+            okish = [r_ for r_ in allrets if not r_.term.startswith('Result::Err(') and 'from_residual' not in r_.term]
+            cx.must_pass('C14.P3', ir, okish, via_blocks={b_.bb for b_ in begin}, what='every-non-error-exit-went-through-BEGIN')
+            begin = []
+        else:
+            cx.check('C14.P3', len(begin) == 1 and len(commit) == 1 and len(rows) >= 1, ir.path, 'calls', 'rows-of-one-update-in-one-transaction',
+                     f'BEGIN={len(begin)} COMMIT={len(commit)} row-inserts={len(rows)}: without a transaction bracket each row is its own commit and a stop after row k leaves a half-written update', f'{ir.file}:{ir.line}')
         if begin and commit and rows:
             cx.guard('C14.P3', rows, {'inside-transaction': r'^ok\(Connection::execute_batch\(.*lit:"BEGIN"\)\)$'}, fn=ir)
             cx.guard('C14.P3', commit, {'all-rows-written': r"^!ok\(<Iter<'a;T> as Iterator>::next\(arg3\)\)$"}, fn=ir)
